@@ -16,6 +16,7 @@ struct RV {
     std::string str;
     int         kind = 0; // 0 unsigned, 1 signed, 2 real
     long double v    = 0;
+    bool        inexact = false; // a rounding happened on the way (e.g. 3/2.5): IEEE results depend on the association
 };
 static RV num(long double v, int kind) {
     RV r;
@@ -41,10 +42,29 @@ static const char *OPS[16] = {"||", "&&", "==", "!=", ">=", "<=", ">", "<", "|",
 // documented levels (higher binds tighter): or/and 1; comparisons 2; bitwise 3; add/sub 4; mul/div 5; rem/exp 6
 static const int LEVEL[16] = {1, 1, 2, 2, 2, 2, 2, 2, 3, 3, 4, 4, 5, 5, 6, 6};
 
+static RV apply_exact(int op, const RV &a, const RV &b);
 static RV apply(int op, const RV &a, const RV &b) {
     if (a.unspec || b.unspec) {
         return unspecified();
     }
+    const std::string o = OPS[op];
+    const bool        arith = (o == "+" || o == "-" || o == "*" || o == "/");
+    if ((a.inexact || b.inexact) && !arith) {
+        return unspecified(); // a comparison, remainder, power or logic on a rounded value may flip with the association
+    }
+    RV r = apply_exact(op, a, b);
+    if (r.has && arith) {
+        r.inexact = a.inexact || b.inexact;
+        if (o == "/" && b.has && b.v != 0) {
+            long double q = a.v / b.v;
+            if (!((long double)(double)q == q && q * b.v == a.v)) {
+                r.inexact = true;
+            }
+        }
+    }
+    return r;
+}
+static RV apply_exact(int op, const RV &a, const RV &b) {
     const std::string o = OPS[op];
     if (o == "==" || o == "!=") {
         RV   r;
@@ -153,7 +173,7 @@ static RV apply(int op, const RV &a, const RV &b) {
 using RSet = std::vector<RV>;
 static void add_unique(RSet &s, const RV &r) {
     for (auto &x : s) {
-        if (x.has == r.has && x.unspec == r.unspec && x.text == r.text && x.v == r.v && x.str == r.str) {
+        if (x.has == r.has && x.unspec == r.unspec && x.text == r.text && x.v == r.v && x.str == r.str && x.inexact == r.inexact) {
             return;
         }
     }
@@ -325,7 +345,7 @@ static void judge(const std::string &expr, const RSet &admit, Rig &rig, vx::Ctx 
         } else {
             want += "<no value> ";
         }
-        if (r.has == got.has && (!r.has || fabsl(r.v - got.v) <= 4e-15L * (fabsl(r.v) > 1 ? fabsl(r.v) : 1))) {
+        if (r.has == got.has && (!r.has || fabsl(r.v - got.v) <= (r.inexact ? 1e-12L : 4e-15L) * (fabsl(r.v) > 1 ? fabsl(r.v) : 1))) {
             match = true;
         }
     }
@@ -542,6 +562,54 @@ int main(int argc, char **argv) {
             }
         };
         plan.stages.push_back(st);
+        {
+            // every operator sequence of length `seqlen` with three fixed operand assignments (precedence/associativity across
+            // many levels; the operand rotation above only reaches it in the thorough tier)
+            const int seqlen = atoi(a.get("seqlen", "4").c_str());
+            vx::Stage s3;
+            s3.name   = "operator-sequences";
+            s3.chunks = 256;
+            s3.fn     = [seqlen](int64_t chunk, vx::Ctx &ctx) {
+                static Rig rig;
+                static const size_t assign[3][6] = {{4, 2, 3, 2, 1, 3}, {9, 7, 3, 13, 8, 1}, {1, 3, 2, 7, 2, 5}};
+                int total = 1;
+                for (int i = 2; i < seqlen; i++) {
+                    total *= 16;
+                }
+                for (int code = 0; code < total; code++) {
+                    std::vector<int> ops = {(int)(chunk / 16), (int)(chunk % 16)};
+                    int              c   = code;
+                    for (int i = 2; i < seqlen; i++) {
+                        ops.push_back(c % 16);
+                        c /= 16;
+                    }
+                    for (int as = 0; as < 3; as++) {
+                        ctx.acc.count("states");
+                        if (!ctx.next()) {
+                            continue;
+                        }
+                        std::vector<RSet> rs;
+                        std::string       e;
+                        for (int i = 0; i <= seqlen; i++) {
+                            const Operand &o = core[assign[as][i % 6]];
+                            rs.push_back(RSet{o.val});
+                            if (i) {
+                                e += std::string(" ") + OPS[ops[(size_t)i - 1]] + " ";
+                            }
+                            e += o.text;
+                        }
+                        if (ctx.want_desc()) {
+                            ctx.describe(e);
+                        }
+                        RSet admit = eval_level(rs, ops, 1);
+                        ctx.acc.count("transitions");
+                        judge(e, admit, rig, ctx, false);
+                    }
+                }
+            };
+            plan.stages.push_back(s3);
+            plan.rule += " || every operator sequence of length " + std::to_string(seqlen) + " (16^" + std::to_string(seqlen) + ") with three fixed operand assignments";
+        }
         {
             // negative base to a negative even exponent: judged here, once per operand form
             vx::Stage s2;
